@@ -179,6 +179,72 @@ class ParseWatch:
         return bad
 
 
+def tdump(obj, depth=0):
+    """Structural dump of a compiled template (ast nodes incl. position attributes, wildcards, containers, types)."""
+    if depth > 40:
+        return "..."
+    if isinstance(obj, ast.AST):
+        fields = sorted((k, tdump(v, depth + 1)) for k, v in vars(obj).items())
+        return (type(obj).__name__, tuple(fields))
+    if isinstance(obj, (list, tuple)):
+        return (type(obj).__name__, tuple(tdump(x, depth + 1) for x in obj))
+    if isinstance(obj, (set, frozenset)):
+        return ("set", tuple(sorted(repr(tdump(x, depth + 1)) for x in obj)))
+    if isinstance(obj, dict):
+        return ("dict", tuple(sorted((repr(k), repr(tdump(v, depth + 1))) for k, v in obj.items())))
+    if isinstance(obj, type):
+        return ("type", obj.__name__)
+    if hasattr(obj, "__dict__") and not callable(obj):
+        return (type(obj).__name__, tuple(sorted((k, repr(tdump(v, depth + 1))) for k, v in vars(obj).items())))
+    return repr(obj)
+
+
+class TemplateWatch:
+    """Every compiled template handed out by core.compile_template, with the arguments it was built from: a template is
+    faithful if it still equals a freshly compiled one (the cache bypassed)."""
+
+    def __init__(self, mods):
+        self.core = mods["core"]
+        self.handed: Dict[int, tuple] = {}
+        self.orig = None
+
+    def install(self):
+        self.orig = self.core.compile_template
+        orig, handed = self.orig, self.handed
+
+        def compile_template(*a, **k):
+            tpl = orig(*a, **k)
+            try:
+                handed.setdefault(id(tpl), (a, tuple(sorted(k.items(), key=lambda kv: kv[0])), tpl))
+            except Exception:
+                pass
+            return tpl
+        for attr in ("cache_clear", "cache_info", "__wrapped__"):
+            if hasattr(orig, attr):
+                setattr(compile_template, attr, getattr(orig, attr))
+        self.core.compile_template = compile_template
+
+    def uninstall(self):
+        self.core.compile_template = self.orig
+
+    def unfaithful(self):
+        bad = []
+        raw = getattr(self.orig, "__wrapped__", None)
+        if raw is None:
+            return bad
+        for a, k, tpl in list(self.handed.values()):
+            try:
+                fresh = raw(*a, **dict(k))
+            except Exception:
+                continue
+            try:
+                if tdump(tpl) != tdump(fresh):
+                    bad.append(repr(a[0])[:120] if a else "?")
+            except Exception:
+                continue
+        return bad
+
+
 def _init():
     mods = import_pyrefact()
     tmp = tempfile.mkdtemp(prefix="verif-c05-")
@@ -269,6 +335,8 @@ def _text_history(state, item):
     text, calls = item
     watch = ParseWatch(mods)
     watch.install()
+    twatch = TemplateWatch(mods)
+    twatch.install()
     out = []
     bad = None
     try:
@@ -281,7 +349,12 @@ def _text_history(state, item):
                 uf = watch.unfaithful()
                 if uf:
                     bad = (step, name, uf[0][:200])
+            if bad is None and (step % 6 == 0 or step == len(calls)):
+                tf = twatch.unfaithful()
+                if tf:
+                    bad = (step, name + " (or one of the five calls before it)", "compiled template of " + tf[0])
     finally:
+        twatch.uninstall()
         watch.uninstall()
     return {"results": out, "unfaithful": bad}
 
@@ -302,6 +375,23 @@ def text_histories(rep: Report, mods, t: str, rng: random.Random) -> Tuple[int, 
         calls.append("format_code")
         items.append((x, calls))
         meta.append((origin, x, calls))
+    # every example of an example script, with the rule that script is about: r(x) r(x) r(x)
+    import corpus
+    by_name = {r.split(".")[-1]: r for r in rules}
+    own = []
+    seen_texts = {x for _, x in texts}
+    for origin, x in corpus.repo_snippets():
+        stem = origin.split(":")[0].split("/")[-1].replace("test_", "").replace(".py", "")
+        r = by_name.get(stem)
+        if r and x not in seen_texts:
+            own.append((origin, x, r))
+    own_fresh = dict(zip([(r, x) for _, x, r in own],
+                         workers.run_tasks(_fresh_text_call, [(r, x) for _, x, r in own], init=_init, procs=16, timeout=120, fork_per_task=True)))
+    fresh.update(own_fresh)
+    for origin, x, r in own:
+        if isinstance(own_fresh.get((r, x)), tuple) and own_fresh[(r, x)] != ("ok", x):
+            items.append((x, [r, r, r]))
+            meta.append((origin, x, [r, r, r]))
     results = workers.run_tasks(_text_history, items, init=_init, procs=16, timeout=600, fork_per_task=True)
     n_calls = 0
     for (origin, x, calls), r in zip(meta, results):
@@ -309,7 +399,9 @@ def text_histories(rep: Report, mods, t: str, rng: random.Random) -> Tuple[int, 
             continue
         if r["unfaithful"]:
             step, name, src = r["unfaithful"]
-            rep.violation(f"a tree cached by core.parse no longer matches its text after call {step} ({name}) of the history {calls[:step]} on {origin}",
+            what = ("a compiled template cached by core.compile_template no longer equals a fresh compilation" if src.startswith("compiled template of ")
+                    else "a tree cached by core.parse no longer matches its text")
+            rep.violation(f"{what} after call {step} ({name}) of the history {calls[:step]} on {origin}: {src[:80]}",
                           {"input_id": origin, "source": x, "history": calls[:step], "text_of_tree": src})
             continue
         for step, (name, got) in enumerate(zip(calls, r["results"]), start=1):
